@@ -8,7 +8,9 @@
 // user {rw_split, rw_nosplit, ro_split, ro_nosplit} x check_select_lock {true, false in the
 // namespace configuration} x transaction state {none, BEGIN, SET autocommit=0} x transport
 // {COM_QUERY, COM_STMT_PREPARE+EXECUTE}; plus multi-statement COM_QUERYs "<plain read>; F",
-// "F; <plain read>", "<plain read>; F; <plain read>" judged piece by piece.
+// "F; <plain read>", "<plain read>; F; <plain read>" judged piece by piece; plus statement
+// histories on one session (autocommit switches, BEGIN/COMMIT/ROLLBACK, reads, writes) in which
+// every read/write is judged under the transaction state the history defines.
 //
 // Oracle = the property statement as a table (never Gaea's own classification):
 //   - inside a transaction every statement that reaches a backend reaches the master;
@@ -184,6 +186,8 @@ type caseT struct {
 	// shape, e.g. "plain-select;F" — F is the decorated form, the others are plain reads
 	Shape  string   `json:"shape,omitempty"`
 	Pieces []pieceT `json:"pieces,omitempty"`
+	// transport "history" only: the commands sent one after the other on one session
+	Hist []string `json:"hist,omitempty"`
 }
 
 // pieceT is one statement of a multi-statement query.
@@ -263,6 +267,9 @@ func runCase(r *ev.Run, wk *worker, c caseT) outcome {
 	if c.Transport == "multi" {
 		return runMulti(r, s, c)
 	}
+	if c.Transport == "history" {
+		return runHistory(r, s, c)
+	}
 	var rep rig.Reply
 	if c.Transport == "prepared" {
 		id, np, prep := s.Prepare(c.SQL)
@@ -320,6 +327,168 @@ func runCase(r *ev.Run, wk *worker, c caseT) outcome {
 		},
 		Case: c,
 	})
+	return o
+}
+
+// ---------------------------------------------------------------- statement histories
+
+// histCmd is one command of a session history. Control commands change the session state of
+// the reference model below; data commands are judged with the must-master table under the
+// transaction state the history has produced.
+type histCmd struct {
+	Name  string
+	SQL   string
+	Class string // "" = control command
+}
+
+var histCmds = []histCmd{
+	{"autocommit0", "set autocommit=0", ""},
+	{"autocommit1", "set autocommit=1", ""},
+	{"begin", "begin", ""},
+	{"commit", "commit", ""},
+	{"rollback", "rollback", ""},
+	{"select", "select id, v from tc where id = 1", "plain"},
+	{"insert", "insert into tc (id, v) values (1, 'a')", "write"},
+	// thorough only:
+	{"show", "show variables like 'version'", "plain"},
+	{"for-update", "select id, v from tc where id = 1 for update", "lock"},
+	{"start-transaction", "start transaction", ""},
+}
+
+func histCmdByName(n string) histCmd {
+	for _, h := range histCmds {
+		if h.Name == n {
+			return h
+		}
+	}
+	ev.Fatalf("history command %q", n)
+	return histCmd{}
+}
+
+// txModel is the reference session state (MySQL's rules, not Gaea's flags):
+//   - BEGIN / START TRANSACTION opens an explicit transaction, COMMIT / ROLLBACK end it;
+//   - with autocommit=0 every statement runs inside a transaction — COMMIT / ROLLBACK end the
+//     current one and the next statement implicitly starts the next, so the session is never
+//     outside a transaction until autocommit is switched back to 1 (which commits);
+//   - SET autocommit=1 while autocommit is already 1 does not end an explicit transaction in
+//     MySQL, Gaea treats it as a commit: the model does not take sides (unsure) until the next
+//     COMMIT / ROLLBACK / BEGIN / autocommit=0 and applies only the outside-transaction rules.
+type txModel struct {
+	autocommit bool
+	explicit   bool
+	unsure     bool
+	ended      int // transactions ended by COMMIT/ROLLBACK since autocommit was last set to 0
+}
+
+func (m *txModel) control(name string) {
+	switch name {
+	case "autocommit0":
+		if m.autocommit {
+			m.ended = 0
+		}
+		m.autocommit = false
+		m.unsure = false
+	case "autocommit1":
+		if m.autocommit && m.explicit {
+			m.unsure = true
+		}
+		if !m.autocommit {
+			m.explicit = false // switching from 0 to 1 commits
+		}
+		m.autocommit = true
+	case "begin", "start-transaction":
+		m.explicit, m.unsure = true, false
+	case "commit", "rollback":
+		m.explicit, m.unsure = false, false
+		if !m.autocommit {
+			m.ended++
+		}
+	}
+}
+
+// state returns the transaction label of the next data command: begin | autocommit0 | none.
+func (m *txModel) state() string {
+	switch {
+	case m.unsure:
+		return "none"
+	case m.explicit:
+		return "begin"
+	case !m.autocommit:
+		return "autocommit0"
+	}
+	return "none"
+}
+
+// runHistory sends the commands of c.Hist one by one on one session and judges every data
+// command with mustMaster under the transaction state the reference model derives from the
+// commands before it.
+func runHistory(r *ev.Run, s *rig.Sess, c caseT) outcome {
+	var o outcome
+	m := txModel{autocommit: true}
+	r.Add("evaluations", 1)
+	r.Add("histories", 1)
+	var trace []string
+	for i, name := range c.Hist {
+		h := histCmdByName(name)
+		rep := s.Query(h.SQL)
+		if h.Class == "" {
+			if rep.Err || rep.Closed {
+				ev.Fatalf("rig: control command %q failed in history %v: %+v", h.SQL, c.Hist, rep)
+			}
+			m.control(name)
+			trace = append(trace, name)
+			continue
+		}
+		tx := m.state()
+		execs := rig.Execs(rep.Events)
+		served := "none"
+		if len(execs) > 0 {
+			served = execs[0].Class
+			for _, e := range execs {
+				if e.Class != served {
+					served = "master+replica"
+				}
+			}
+		}
+		trace = append(trace, fmt.Sprintf("%s[tx=%s:%s]", name, tx, served))
+		pcase := c
+		pcase.Class, pcase.Tx = h.Class, tx
+		rule := mustMaster(pcase)
+		r.Add("history_statements", 1)
+		r.Distinct("outcomes", fmt.Sprintf("history|%s|%s|%s|ended=%d|%s", h.Class, c.User, tx, min(m.ended, 2), served))
+		if served != "none" {
+			r.Add("served", 1)
+			if c.User == rig.RwSplit {
+				r.Distinct("nontrivial", fmt.Sprintf("history|%s|%d", strings.Join(c.Hist, ","), i))
+				if tx == "autocommit0" && m.ended > 0 && served == "master" {
+					r.Add("history_master_in_later_autocommit0_transaction", 1)
+				}
+				if tx == "none" && i > 0 && served == "replica" {
+					r.Add("history_replica_after_transaction_ended", 1)
+				}
+			}
+		}
+		if rule == "" || served == "none" || served == "master" {
+			continue
+		}
+		o.Rule = rule
+		prev := "nothing"
+		if i > 0 {
+			prev = c.Hist[i-1]
+		}
+		r.Violation(ev.Witness{
+			Summary: fmt.Sprintf("%s, history %s: command %d %q runs with tx=%s and must run on the master (%s) but was executed on %s",
+				c.User, strings.Join(c.Hist, "; "), i+1, h.SQL, tx, rule, served),
+			Features: map[string]string{
+				"form": name, "len": "short", "class": h.Class, "lead": "none", "trail": "none", "case": "lower", "space": "blank",
+				"user": c.User, "check_select_lock": c.CSL, "tx": tx, "transport": "history",
+				"rule": rule, "served": served, "before": prev,
+				"transactions_ended_in_autocommit0": fmt.Sprint(min(m.ended, 2)),
+			},
+			Case: c,
+		})
+	}
+	o.Served = strings.Join(trace, " ; ")
 	return o
 }
 
@@ -548,6 +717,33 @@ func main() {
 	}
 	r.Set("multi_statement_cases", multiCases)
 
+	// statement histories on one session: every sequence of 2..4 (thorough: 2..5) commands over
+	// {set autocommit=0, set autocommit=1, begin, commit, rollback, select, insert} (thorough:
+	// plus show, select ... for update, start transaction) that contains a data command, for
+	// every user; each data command is judged under the transaction state the history defines
+	nc, maxLen := 7, 4
+	if !r.Quick() {
+		nc, maxLen = len(histCmds), 5
+	}
+	nHist := 0
+	enum.Seqs(nc, 2, maxLen, func(seq []int) {
+		hist := make([]string, len(seq))
+		data := false
+		for i, x := range seq {
+			hist[i] = histCmds[x].Name
+			data = data || histCmds[x].Class != ""
+		}
+		if !data || histCmds[seq[len(seq)-1]].Class == "" {
+			return // ends with a control command: the same judgements as its prefix
+		}
+		for _, u := range users {
+			all = append(all, caseT{Form: "history", Class: "history", Lead: "none", Trail: "none", Case: "lower", Space: "blank",
+				User: u, CSL: "on", Tx: "none", Transport: "history", SQL: strings.Join(hist, "; "), Hist: hist})
+			nHist++
+		}
+	})
+	r.Set("history_cases", nHist)
+
 	var mu sync.Mutex
 	sampled := map[string]bool{}
 	free := make(chan *worker, nWorkers)
@@ -584,6 +780,10 @@ func main() {
 	r.Assume("read-only users outside a transaction are documented (docs/faq.md) to be served by replicas even for hinted / locking reads; they are observed, not judged")
 	r.Assume("only the documented hint spelling /*master*/ (any letter case) is judged; /*+ master */ is observed only")
 	// self-test of the harness; when the run has unexplained violations they are the verdict
+	if r.Violations() == 0 && (r.Count("history_master_in_later_autocommit0_transaction") == 0 || r.Count("history_replica_after_transaction_ended") == 0) {
+		ev.Fatalf("vacuous: histories: master in a later autocommit=0 transaction=%d, replica after a transaction ended=%d",
+			r.Count("history_master_in_later_autocommit0_transaction"), r.Count("history_replica_after_transaction_ended"))
+	}
 	if r.Violations() == 0 && r.Count("multi_master_piece_after_replica_piece") == 0 {
 		ev.Fatalf("vacuous: no multi-statement query had a master piece directly behind a replica piece")
 	}
